@@ -1,6 +1,6 @@
 (* C13/Examples.v — non-vacuity of every hypothesis used in Properties.v and
    worked examples (RFC 6120 §4.9.3 / §8.3.2 style values). *)
-From XV Require Import lib.Bytes gen.Stanza gen.StanzaAlloc C13.Xml C13.Model C13.Proofs C13.Heap C13.HeapProofs.
+From XV Require Import lib.Bytes gen.Stanza gen.StanzaAlloc C13.Xml C13.Model C13.Proofs C13.Cross C13.Heap C13.HeapProofs.
 
 Definition idp : jparse := fun s => Some s.
 
@@ -138,3 +138,15 @@ Example ex_append_grows :
   let (h3, s2) := sl_append h2 s0 (lattr L_type (str "auth")) in
   sl_read h3 s1 = [lattr L_type (str "cancel")] /\ sl_read h3 s2 = [lattr L_type (str "auth")] /\ length h3 = 3.
 Proof. vm_compute. repeat split; reflexivity. Qed.
+
+(* cross-decoding: New* on the marshalled form of an IQ with a language tag;
+   with the name space of the Lang tag removed the language is lost *)
+Example ex_new_of_marshalled :
+  new_of_tree KIQ idp (wire [] (marshal_tree KIQ ex_iq)) = Some (set_ns ex_iq []).
+Proof. vm_compute. reflexivity. Qed.
+
+Example ex_lang_tag_space_needed :
+  let v := mkst [] L_iq (str "1") [] [] (str "de-CH") L_get in
+  new_of_tree KIQ idp (wire [] (Elem (mkname [] L_iq) (flat_map (marshal_field v) (lang_tag_without_space iq_schema)) [])) =
+  Some (set_lang v []).
+Proof. vm_compute. reflexivity. Qed.
